@@ -260,9 +260,10 @@ def _main(rep: Report, replay: dict | None) -> None:
     cover: dict = {}
     nhist = 240 if quick else 3000
     share = nhist // len(CELL_MODELS)
-    with ProcessPoolExecutor(max_workers=2, mp_context=multiprocessing.get_context("spawn")) as pool, \
+    with ProcessPoolExecutor(max_workers=6, mp_context=multiprocessing.get_context("spawn")) as pool, \
             ThreadPoolExecutor(max_workers=8) as tp:
-        memo_f = [pool.submit(c15_memo.replay_model, dict(cfg=c)) for c in ("MC_Memo_cached.cfg", "MC_Memo_tsc.cfg")]
+        memo_f = [pool.submit(c15_memo.replay_model, dict(cfg=c)) for c in (("MC_Memo_cached.cfg", "MC_Memo_tsc.cfg") if quick else
+                            ("MC_Memo_cached.cfg", "MC_Memo_tsc.cfg", "MC_Memo_tsc3.cfg"))]
         conc_f = [pool.submit(c15_conc.replay_model, dict(cfg=f"MC_TermCacheConc_{c}.cfg"))
                   for c in ("swapon", "swapoff", "queries", "two")]
         edge_f = [
@@ -284,6 +285,8 @@ def _main(rep: Report, replay: dict | None) -> None:
                  for v, (c, _) in VARIANTS.items()}
         var_f["clearfirst"] = tp.submit(tlc.run, "MC_TermCacheConc", "MC_TermCacheConc_var.cfg", workers=1, timeout=300,
                                         env={"VARIANT": "clearfirst"})
+        var_f["kwnames"] = tp.submit(tlc.run, "MC_Memo", "MC_Memo_var_kw.cfg", workers=1, timeout=300, env={"VARIANT": "kwnames"})
+        var_f["sizefirst"] = tp.submit(tlc.run, "MC_Memo", "MC_Memo_var_tsc.cfg", workers=1, timeout=300, env={"VARIANT": "sizefirst"})
         var_f["outside"] = tp.submit(tlc.run, "MC_Memo", "MC_Memo_var.cfg", workers=1, timeout=300, env={"VARIANT": "outside"})
 
         for name, f in zip(mc_names, mc_f):
@@ -317,7 +320,7 @@ def _main(rep: Report, replay: dict | None) -> None:
             if out["violated"]:
                 rep.violation(f"design:Memo:{out['cfg']}:{out['violated']}", out["error_text"][:1500], {"kind": "design", "cfg": out["cfg"]})
                 continue
-            need = {"Acq", "Body", "Rel"} | ({"Resize"} if "tsc" in out["cfg"] else set())
+            need = {"Acq", "Body", "BodyFail", "Rel"} | ({"Resize"} if "tsc" in out["cfg"] else set())
             if not need <= set(out["acts"]):
                 raise tlc.MachineryError(f"{out['cfg']}: vacuous, actions {need - set(out['acts'])} never taken")
             rep.traces_validated += out["walks"]
